@@ -118,6 +118,7 @@ struct Inode {
   uint32_t mode = 0; uint32_t uid = 0, gid = 0;
   int nlink = 0;
   int64_t atime = 0, mtime = 0, ctime = 0;
+  uint64_t hole = 0;             // sparse tail: this many zero bytes follow `data` (files planted by a world, read-only use: sizes beyond 4 GiB without the memory)
   std::string data;                // current content (REG)
   std::string synced;              // content as of last fsync
   std::vector<WriteOp> unsynced;   // ops since last fsync
